@@ -1,11 +1,12 @@
 #!/bin/bash
-# runs every seeded change against the check of its own property (and C05 also against C02); prints one line per seed
+# runs every seeded change against the check of its own property (id without the round suffix; C05 also against C02);
+# prints one line per seed.  usage: sweep_seeds.sh [seed-id ...]   (default: all)
 cd /verif
-for d in seeded/C*; do
-  id=$(basename $d)
-  props=$id
+ids="$@"; [ -z "$ids" ] && ids=$(ls seeded)
+for id in $ids; do
+  prop=$(echo $id | sed -E 's/^(C[0-9]+).*/\1/')
+  props=$prop
   [ "$id" = C05 ] && props="C05 C02"
-  if ! python3 -c "import json,sys; sys.exit(0 if any(c['property_id']=='$id' for c in json.load(open('/verif/MANIFEST.json'))['checks']) else 1)"; then echo "$id: no check registered"; continue; fi
   out=$(tools/try_seed.sh $id $props 2>&1)
   if echo "$out" | grep -Eq "^VIOLATION|, [1-9][0-9]* violations"; then
      conf=$(echo "$out" | grep "^VIOLATION" | grep -vc "no-failing-input-found")
